@@ -11,6 +11,9 @@
  *   R <state> <te> <now>                                               ProcessCheckResult (exec start = end = te)
  *   T <now>                                                            clock := now, Timer::VerifFireDue(now)
  *   X <id> <reason 1=user 2=config owner> <now>                        Downtime::RemoveDowntime
+ *   P <paused 0|1> <now>                                               the checkable loses / regains authority
+ *                                                                      (ConfigObject::SetAuthority): while it is paused no
+ *                                                                      DowntimeStart/DowntimeEnd notification is requested
  *   observation:  | <rc> <depth> <inDowntime> <n> (<id> <trigger>)*n <m> (<ev> <id> <count>)*m
  *       rc: A 1 created / 0 not; R 1 accepted / 0 dropped; T 0; X 0 no such downtime / 1 removed / 2 refused
  *       ev: 1 DowntimeStart requested, 2 DowntimeEnd requested, 3 OnDowntimeTriggered, 4 OnDowntimeRemoved
@@ -284,6 +287,14 @@ static void DoRemove(int id, int reason, long long now)
 	Observe(rc);
 }
 
+static void DoPause(int paused, long long now)
+{
+	printf("P %d %lld", paused, now);
+	ClockRel(now);
+	g_Obj->SetAuthority(!paused);
+	Observe(0);
+}
+
 /* ------------------------------------------------------------------------------------------------ */
 
 struct GenDt { int id, fixed; long long start, end, dur; int trigBy, owner; bool added = false, gone = false; };
@@ -332,6 +343,8 @@ static void GenCase(Rng& rng, bool thorough, bool prod)
 	size_t nextAdd = 0;
 	bool checkedFirst = rng.below(4) != 0; /* 3/4 of the cases start with a result */
 	bool addFirst = rng.below(5) < 2;
+	bool pausing = rng.below(3) == 0; /* a third of the cases pause / resume the checkable */
+	bool paused = false;
 	for (int s = 0; s < steps; s++) {
 		/* time: stay, a boundary instant, or a small step */
 		int tk = (int)rng.below(10);
@@ -360,6 +373,11 @@ static void GenCase(Rng& rng, bool thorough, bool prod)
 			DoResult(st, te, now);
 			marks.push_back(te + 1);
 			for (auto& d : dts) if (!d.fixed) { marks.push_back(te + d.dur); marks.push_back(te + d.dur + 1); marks.push_back(te + d.dur - 1); }
+		} else if (k < 88) {
+			DoPump(now);
+		} else if (k < 92 && pausing) {
+			paused = !paused;
+			DoPause(paused ? 1 : 0, now);
 		} else if (k < 92) {
 			DoPump(now);
 		} else {
@@ -473,7 +491,7 @@ int main(int argc, char **argv)
 				char k; int prod = 0;
 				if (sscanf(line, "C %c %d", &k, &prod) < 1) { fprintf(stderr, "bad C line\n"); rcode = 2; break; }
 				BeginCase(k == 'h', prod != 0);
-			} else if (!g_Obj && (line[0] == 'A' || line[0] == 'R' || line[0] == 'T' || line[0] == 'X')) {
+			} else if (!g_Obj && (line[0] == 'A' || line[0] == 'R' || line[0] == 'T' || line[0] == 'X' || line[0] == 'P')) {
 				fprintf(stderr, "operation before C line\n"); rcode = 2; break;
 			} else if (line[0] == 'A') {
 				int id, fixed, trigBy, owner; long long start, end, dur, now;
@@ -487,6 +505,10 @@ int main(int argc, char **argv)
 				long long now;
 				if (sscanf(line, "T %lld", &now) != 1) { fprintf(stderr, "bad T line\n"); rcode = 2; break; }
 				DoPump(now);
+			} else if (line[0] == 'P') {
+				int paused; long long now;
+				if (sscanf(line, "P %d %lld", &paused, &now) != 2) { fprintf(stderr, "bad P line\n"); rcode = 2; break; }
+				DoPause(paused, now);
 			} else if (line[0] == 'X') {
 				int id, reason; long long now;
 				if (sscanf(line, "X %d %d %lld", &id, &reason, &now) != 3) { fprintf(stderr, "bad X line\n"); rcode = 2; break; }
